@@ -345,7 +345,7 @@ class KeepDense(Dense_):
         self._map = mapping
         self._sel = selects
         self._len = len
-        if headers: self.headers = headers
+        if headers is not None: self.headers = headers
 
     def __getitem__(self, key: Union[int,str]):
         return self._row[self._map.get(key,10000000)]
